@@ -19,6 +19,10 @@ theorem digitsVal_eq : ∀ (cs : List Char) (acc : Nat), (∀ c ∈ cs, c.isDigi
     have : '0'.toNat = 48 := by decide
     rw [this, Nat.mul_comm]
 
+@[simp] theorem digitsVal_toDigits (n : Nat) : digitsVal (Nat.toDigits 10 n) 0 = some n := by
+  rw [digitsVal_eq _ _ (fun c hc => Nat.isDigit_of_mem_toDigits (by decide) (by decide) hc),
+    Nat.ofDigitChars_ten_toDigits]
+
 theorem digitsVal_toString (n : Nat) : digitsVal (toString n).toList 0 = some n := by
   rw [Nat.toString_eq_repr, Nat.toList_repr,
     digitsVal_eq _ _ (fun c hc => Nat.isDigit_of_mem_toDigits (by decide) (by decide) hc),
